@@ -161,6 +161,61 @@ fn impl_size(kind: &str, b: &[u8]) -> String {
     }
 }
 
+/// `View::try_from_boxed` / `to_boxed` / `as_slice_boxed` / `copy_to_slice`: a box is accepted iff the view needs
+/// exactly the whole box; the boxed view owns exactly those bytes; copies are byte-identical and never larger
+/// than the destination.  Returns a description of the first deviation.
+fn boxed_oracle<V: View + ?Sized>(b: &[u8]) -> Option<String> {
+    let want = matches!(V::has_required_size(b), Ok(n) if n == b.len());
+    let r = catch(|| -> Result<(), String> {
+        match V::try_from_boxed(b.to_vec().into_boxed_slice()) {
+            Ok(v) => {
+                if !want { return Err(format!("try_from_boxed accepted a {} byte box although has_required_size says {:?}", b.len(), V::has_required_size(b))) }
+                if v.as_slice() != b { return Err("boxed view does not hold the input bytes".into()) }
+                let c = v.to_boxed();
+                if c.as_slice() != b { return Err("to_boxed differs".into()) }
+                let mut dst = vec![0x5au8; b.len() + 2];
+                match v.copy_to_slice(&mut dst) {
+                    Ok((w, rest)) => { if w.as_slice() != b || rest.len() != 2 { return Err("copy_to_slice differs".into()) } }
+                    Err(e) => return Err(format!("copy_to_slice into a larger buffer failed: {e:?}")),
+                }
+                if !b.is_empty() {
+                    let mut small = vec![0u8; b.len() - 1];
+                    if v.copy_to_slice(&mut small).is_ok() { return Err("copy_to_slice into a smaller buffer succeeded".into()) }
+                }
+                if &*c.as_slice_boxed() != b { return Err("as_slice_boxed differs".into()) }
+                Ok(())
+            }
+            Err(_) => if want { Err("try_from_boxed rejected an exact-size box".into()) } else { Ok(()) },
+        }
+    });
+    match r { Ok(Ok(())) => None, Ok(Err(m)) => Some(m), Err(p) => Some(format!("panic: {}", &p[..p.len().min(100)])) }
+}
+fn impl_boxed(kind: &str, b: &[u8]) -> Option<String> {
+    match kind {
+        "header" => boxed_oracle::<ScionHeaderView>(b),
+        "stdpath" => boxed_oracle::<StandardPathView>(b),
+        "onehop" => boxed_oracle::<OneHopPathView>(b),
+        "info" => boxed_oracle::<InfoFieldView>(b),
+        "hop" => boxed_oracle::<HopFieldView>(b),
+        "raw" => boxed_oracle::<ScionRawPacketView>(b),
+        "udppkt" => boxed_oracle::<ScionUdpPacketView>(b),
+        "scmppkt" => boxed_oracle::<ScionScmpPacketView>(b),
+        "udp" => boxed_oracle::<UdpDatagramView>(b),
+        "scmp" => boxed_oracle::<ScmpPayloadView>(b),
+        "scmpmsg:DestinationUnreachable" => boxed_oracle::<ScmpDestinationUnreachableMessageView>(b),
+        "scmpmsg:PacketTooBig" => boxed_oracle::<ScmpPacketTooBigMessageView>(b),
+        "scmpmsg:ParameterProblem" => boxed_oracle::<ScmpParameterProblemMessageView>(b),
+        "scmpmsg:ExternalInterfaceDown" => boxed_oracle::<ScmpExternalInterfaceDownMessageView>(b),
+        "scmpmsg:InternalConnectivityDown" => boxed_oracle::<ScmpInternalConnectivityDownMessageView>(b),
+        "scmpmsg:EchoRequest" => boxed_oracle::<ScmpEchoRequestMessageView>(b),
+        "scmpmsg:EchoReply" => boxed_oracle::<ScmpEchoReplyMessageView>(b),
+        "scmpmsg:TracerouteRequest" => boxed_oracle::<ScmpTracerouteRequestMessageView>(b),
+        "scmpmsg:TracerouteReply" => boxed_oracle::<ScmpTracerouteReplyMessageView>(b),
+        "scmpmsg:Unknown" => boxed_oracle::<ScmpUnknownMessageView>(b),
+        _ => None,
+    }
+}
+
 struct Ctx {
     lean: Lean,
     rep: Report,
@@ -184,6 +239,12 @@ fn size_case(cx: &mut Ctx, stream: &str, kind: &str, b: &[u8], exercise: bool) -
     cx.rep.case(&format!("{kind}|{}|{}|{im}", b.len(), hex(&b[..b.len().min(48)])), nontrivial);
     if cx.lean.differs(&mo, &im) {
         cx.rep.disagree(stream, json!({"kind": kind, "len": b.len(), "bytes": short_hex(b), "line": format!("size {kind} {}", hex(b))}), &im, &mo);
+    }
+    if b.len() <= 2048 {
+        if let Some(m) = impl_boxed(kind, b) {
+            cx.rep.spec_fail(&format!("C02:boxed:{kind}"), &format!("{kind}: {m}"), json!({"kind": kind, "bytes": short_hex(b), "line": format!("size {kind} {}", hex(b))}));
+        }
+        cx.rep.hit("boxed / copy conversions checked");
     }
     if im == "panic" {
         cx.rep.spec_fail(&format!("C02:panic:has_required_size:{kind}"), "has_required_size panicked", json!({"kind": kind, "bytes": short_hex(b)}));
@@ -402,6 +463,30 @@ fn exercise_view(cx: &mut Ctx, kind: &str, v: &[u8]) {
                 let _ = p.message().to_model();
             });
         }
+        k if k.starts_with("scmpmsg:") => {
+            // typed message views constructed on their own: every getter, slice accessor and Debug, flush against the guard page
+            macro_rules! msg { ($t:ty, |$m:ident| $body:expr) => {{
+                guarded(cx, "scmpmsg:accessors", kind, v, || {
+                    let ($m, _) = <$t>::try_from_mut_slice(buf).unwrap();
+                    let _ = ($m.message_type(), $m.code(), $m.checksum(), format!("{:?}", $m), $m.as_slice().len());
+                    let _ = $body;
+                });
+            }} }
+            let touch = |s: &[u8]| { if let (Some(a), Some(b)) = (s.first(), s.last()) { std::hint::black_box((*a, *b)); } s.len() };
+            match &k[8..] {
+                "DestinationUnreachable" => msg!(ScmpDestinationUnreachableMessageView, |m| (m.reserved(), touch(m.offending_packet()), touch(m.offending_packet_mut()))),
+                "PacketTooBig" => msg!(ScmpPacketTooBigMessageView, |m| (m.reserved(), m.mtu(), touch(m.offending_packet()), touch(m.offending_packet_mut()))),
+                "ParameterProblem" => msg!(ScmpParameterProblemMessageView, |m| (m.reserved(), m.pointer(), touch(m.offending_packet()), touch(m.offending_packet_mut()))),
+                "ExternalInterfaceDown" => msg!(ScmpExternalInterfaceDownMessageView, |m| (m.isd_asn(), m.interface_id(), touch(m.offending_packet()), touch(m.offending_packet_mut()))),
+                "InternalConnectivityDown" => msg!(ScmpInternalConnectivityDownMessageView, |m| (m.isd_asn(), m.ingress_interface_id(), m.egress_interface_id(), touch(m.offending_packet()), touch(m.offending_packet_mut()))),
+                "EchoRequest" => msg!(ScmpEchoRequestMessageView, |m| (m.identifier(), m.sequence_number(), touch(m.data()), touch(m.data_mut()))),
+                "EchoReply" => msg!(ScmpEchoReplyMessageView, |m| (m.identifier(), m.sequence_number(), touch(m.data()), touch(m.data_mut()))),
+                "TracerouteRequest" => msg!(ScmpTracerouteRequestMessageView, |m| (m.identifier(), m.sequence_number(), m.isd_asn(), m.interface_id())),
+                "TracerouteReply" => msg!(ScmpTracerouteReplyMessageView, |m| (m.identifier(), m.sequence_number(), m.isd_asn(), m.interface_id())),
+                "Unknown" => msg!(ScmpUnknownMessageView, |m| (touch(m.message_specific_data()), touch(m.message_specific_data_mut()))),
+                _ => {}
+            }
+        }
         _ => {}
     }
     // (C) slice-returning accessors vs the model's access table
@@ -416,73 +501,176 @@ fn exercise_view(cx: &mut Ctx, kind: &str, v: &[u8]) {
 }
 
 // ------------------------------------------------------------------------------------------------
+// the setter table extracted from the Rust source (Generated/Setters.lean, served by the driver)
+// ------------------------------------------------------------------------------------------------
+/// `View::fn` -> `safe` | `exempt` | `unsafe`, as the translator found it in the source on this run.  The mutator
+/// sequences call a setter iff the *source* declares it safe (every call site below is wrapped in an `unsafe`
+/// block so that the harness compiles whichever way the source declares it): a setter that is turned into a
+/// safe fn is exercised with random values from then on.
+static SETTERS: std::sync::OnceLock<BTreeMap<String, String>> = std::sync::OnceLock::new();
+/// every setter the mutator sequences know how to call
+const KNOWN_SETTERS: &[&str] = &[
+    "ScionHeaderView::set_version", "ScionHeaderView::set_traffic_class", "ScionHeaderView::set_flow_id", "ScionHeaderView::set_payload_len",
+    "ScionHeaderView::set_next_header", "ScionHeaderView::set_header_len", "ScionHeaderView::set_path_type", "ScionHeaderView::set_dst_addr_type",
+    "ScionHeaderView::set_src_addr_type", "ScionHeaderView::set_src_isd", "ScionHeaderView::set_src_as", "ScionHeaderView::set_dst_isd", "ScionHeaderView::set_dst_as",
+    "StandardPathView::set_curr_info_field", "StandardPathView::set_curr_hop_field", "StandardPathView::set_seg0_len", "StandardPathView::set_seg1_len", "StandardPathView::set_seg2_len",
+    "InfoFieldView::set_segment_id", "InfoFieldView::set_timestamp", "InfoFieldView::set_flags",
+    "HopFieldView::set_exp_time", "HopFieldView::set_cons_ingress", "HopFieldView::set_cons_egress", "HopFieldView::set_flags", "HopFieldView::set_mac",
+    "UdpDatagramView::set_src_port", "UdpDatagramView::set_dst_port", "UdpDatagramView::set_length", "UdpDatagramView::set_checksum",
+    "ScmpPayloadView::set_message_type", "ScmpPayloadView::set_code", "ScmpPayloadView::set_checksum",
+    "ScmpDestinationUnreachableMessageView::set_message_type", "ScmpDestinationUnreachableMessageView::set_code", "ScmpDestinationUnreachableMessageView::set_checksum", "ScmpDestinationUnreachableMessageView::set_reserved",
+    "ScmpPacketTooBigMessageView::set_message_type", "ScmpPacketTooBigMessageView::set_code", "ScmpPacketTooBigMessageView::set_checksum", "ScmpPacketTooBigMessageView::set_reserved", "ScmpPacketTooBigMessageView::set_mtu",
+    "ScmpParameterProblemMessageView::set_message_type", "ScmpParameterProblemMessageView::set_code", "ScmpParameterProblemMessageView::set_checksum", "ScmpParameterProblemMessageView::set_reserved", "ScmpParameterProblemMessageView::set_pointer",
+    "ScmpExternalInterfaceDownMessageView::set_message_type", "ScmpExternalInterfaceDownMessageView::set_code", "ScmpExternalInterfaceDownMessageView::set_checksum", "ScmpExternalInterfaceDownMessageView::set_isd_asn", "ScmpExternalInterfaceDownMessageView::set_interface_id",
+    "ScmpInternalConnectivityDownMessageView::set_message_type", "ScmpInternalConnectivityDownMessageView::set_code", "ScmpInternalConnectivityDownMessageView::set_checksum", "ScmpInternalConnectivityDownMessageView::set_isd_asn", "ScmpInternalConnectivityDownMessageView::set_ingress_interface_id", "ScmpInternalConnectivityDownMessageView::set_egress_interface_id",
+    "ScmpEchoRequestMessageView::set_message_type", "ScmpEchoRequestMessageView::set_code", "ScmpEchoRequestMessageView::set_checksum", "ScmpEchoRequestMessageView::set_identifier", "ScmpEchoRequestMessageView::set_sequence_number",
+    "ScmpEchoReplyMessageView::set_message_type", "ScmpEchoReplyMessageView::set_code", "ScmpEchoReplyMessageView::set_checksum", "ScmpEchoReplyMessageView::set_identifier", "ScmpEchoReplyMessageView::set_sequence_number",
+    "ScmpTracerouteRequestMessageView::set_message_type", "ScmpTracerouteRequestMessageView::set_code", "ScmpTracerouteRequestMessageView::set_checksum", "ScmpTracerouteRequestMessageView::set_identifier", "ScmpTracerouteRequestMessageView::set_sequence_number", "ScmpTracerouteRequestMessageView::set_isd_asn", "ScmpTracerouteRequestMessageView::set_interface_id",
+    "ScmpTracerouteReplyMessageView::set_message_type", "ScmpTracerouteReplyMessageView::set_code", "ScmpTracerouteReplyMessageView::set_checksum", "ScmpTracerouteReplyMessageView::set_identifier", "ScmpTracerouteReplyMessageView::set_sequence_number", "ScmpTracerouteReplyMessageView::set_isd_asn", "ScmpTracerouteReplyMessageView::set_interface_id",
+    "ScmpUnknownMessageView::set_message_type", "ScmpUnknownMessageView::set_code", "ScmpUnknownMessageView::set_checksum",
+];
+/// every other safe `&mut self` function the harness calls (directly or through the crate's exercisers)
+const KNOWN_MUT_FNS: &[&str] = &[
+    "ScionHeaderView::path_mut", "ScionPacketView::header_mut", "ScmpPayloadView::message_mut",
+    "StandardPathView::curr_info_field_mut", "StandardPathView::info_field_mut", "StandardPathView::curr_hop_field_mut", "StandardPathView::hop_field_mut",
+    "StandardPathView::info_fields_mut", "StandardPathView::hop_fields_mut", "StandardPathView::try_reverse", "StandardPathView::advance_ingress",
+    "StandardPathView::advance_egress", "StandardPathView::advance_ingress_with_validator", "StandardPathView::advance_egress_with_validator",
+    "OneHopPathView::info_field_mut", "OneHopPathView::mut_hop_fields", "OneHopPathView::set_second_hop", "OneHopPathView::try_reverse",
+    "ScionRawPacketView::payload_mut", "ScionRawPacketView::try_as_udp_mut", "ScionRawPacketView::try_as_scmp_mut", "UdpDatagramView::payload_mut",
+    "ScmpDestinationUnreachableMessageView::offending_packet_mut", "ScmpPacketTooBigMessageView::offending_packet_mut", "ScmpParameterProblemMessageView::offending_packet_mut",
+    "ScmpExternalInterfaceDownMessageView::offending_packet_mut", "ScmpInternalConnectivityDownMessageView::offending_packet_mut",
+    "ScmpEchoRequestMessageView::data_mut", "ScmpEchoReplyMessageView::data_mut", "ScmpUnknownMessageView::message_specific_data_mut",
+];
+/// does the source declare `View::fn` a safe (non-exempt) setter?
+fn src_safe(key: &str) -> bool {
+    debug_assert!(KNOWN_SETTERS.contains(&key), "setter {key} missing in KNOWN_SETTERS");
+    SETTERS.get().and_then(|m| m.get(key)).map(|c| c == "safe").unwrap_or(false)
+}
+/// call a setter iff the source declares it safe
+macro_rules! set {
+    ($key:expr, $log:expr, $call:expr) => {
+        if src_safe($key) {
+            $log.push($key.to_string());
+            #[allow(unused_unsafe)]
+            unsafe { $call };
+        }
+    };
+}
+/// read the extracted tables from the driver; every safe setter / `&mut self` function of the source that the
+/// harness does not know how to call is a failure (an accessor nobody exercises)
+fn load_setter_table(cx: &mut Ctx) {
+    let mut m = BTreeMap::new();
+    if cx.lean.enabled {
+        let line = cx.lean.ask("setters");
+        for w in line.split_whitespace() {
+            let f: Vec<&str> = w.rsplitn(4, ':').collect();
+            if f.len() != 4 { cx.rep.disagree("setter-table", json!({"row": w}), "View::fn:class:start:stop", w); continue }
+            let (key, class) = (f[3].to_string(), f[2].to_string());
+            cx.rep.hit(&format!("source setters: {class}"));
+            if class != "unsafe" && !KNOWN_SETTERS.contains(&key.as_str()) {
+                cx.rep.spec_fail(&format!("C02:unmodelled-setter:{key}"), "the source has a safe setter that neither the access model nor the mutator sequences know", json!({"setter": key}));
+            }
+            m.insert(key, class);
+        }
+        for k in KNOWN_SETTERS {
+            if !m.contains_key(*k) { cx.rep.disagree("setter-table", json!({"setter": k}), "present in the harness", "absent from Generated/Setters.lean") }
+        }
+        for w in cx.lean.ask("mutfns").split_whitespace() {
+            let f: Vec<&str> = w.rsplitn(3, ':').collect();
+            if f.len() != 3 { continue }
+            cx.rep.hit(&format!("source &mut self fns: {} {}", f[1], f[0]));
+            if f[1] == "safe" && (f[0] != "modelled" || !KNOWN_MUT_FNS.contains(&f[2])) {
+                cx.rep.spec_fail(&format!("C02:unmodelled-mut-fn:{}", f[2]), "the source has a safe `&mut self` function on a view type that is neither modelled nor exercised", json!({"fn": f[2]}));
+            }
+        }
+    }
+    let _ = SETTERS.set(m);
+}
+
+// ------------------------------------------------------------------------------------------------
 // (D) random safe-mutator sequences
 // ------------------------------------------------------------------------------------------------
+fn mutate_info(f: &mut InfoFieldView, rng: &mut Rng, log: &mut Vec<String>) {
+    set!("InfoFieldView::set_flags", log, f.set_flags(InfoFieldFlags::from_bits_retain(rng.next() as u8)));
+    set!("InfoFieldView::set_segment_id", log, f.set_segment_id(rng.next() as u16));
+    set!("InfoFieldView::set_timestamp", log, f.set_timestamp(*rng.pick(&[0u32, 1, u32::MAX, u32::MAX - 1, 0x8000_0000, 0x7fff_ffff])));
+}
+fn mutate_hop(f: &mut HopFieldView, rng: &mut Rng, log: &mut Vec<String>) {
+    set!("HopFieldView::set_flags", log, f.set_flags(HopFieldFlags::from_bits_retain(rng.next() as u8)));
+    set!("HopFieldView::set_exp_time", log, f.set_exp_time(rng.next() as u8));
+    set!("HopFieldView::set_cons_ingress", log, f.set_cons_ingress(rng.next() as u16));
+    set!("HopFieldView::set_cons_egress", log, f.set_cons_egress(rng.next() as u16));
+    set!("HopFieldView::set_mac", log, f.set_mac(HopFieldMac(rng.bytes(6).try_into().unwrap())));
+}
 fn mutate_std(p: &mut StandardPathView, rng: &mut Rng, log: &mut Vec<String>) {
-    match rng.below(9) {
-        0 => { let x = rng.next() as u8; log.push(format!("set_curr_info_field({x})")); p.set_curr_info_field(x) }
-        1 => { let x = rng.next() as u8; log.push(format!("set_curr_hop_field({x})")); p.set_curr_hop_field(x) }
+    match rng.below(10) {
+        0 => { let x = rng.next() as u8; set!("StandardPathView::set_curr_info_field", log, p.set_curr_info_field(x)) }
+        1 => { let x = rng.next() as u8; set!("StandardPathView::set_curr_hop_field", log, p.set_curr_hop_field(x)) }
         2 => {
             let i = rng.below(4) as usize;
-            if let Some(f) = p.info_field_mut(i) {
-                log.push(format!("info_field_mut({i}).set_*"));
-                f.set_flags(InfoFieldFlags::from_bits_retain(rng.next() as u8));
-                f.set_segment_id(rng.next() as u16);
-                f.set_timestamp(*rng.pick(&[0u32, 1, u32::MAX, u32::MAX - 1, 0x8000_0000]));
-            }
+            if let Some(f) = p.info_field_mut(i) { log.push(format!("info_field_mut({i})")); mutate_info(f, rng, log) }
         }
         3 => {
             let i = rng.below(200) as usize;
-            if let Some(f) = p.hop_field_mut(i) {
-                log.push(format!("hop_field_mut({i}).set_*"));
-                f.set_flags(HopFieldFlags::from_bits_retain(rng.next() as u8));
-                f.set_exp_time(rng.next() as u8);
-                f.set_cons_ingress(rng.next() as u16);
-                f.set_cons_egress(rng.next() as u16);
-                f.set_mac(HopFieldMac(rng.bytes(6).try_into().unwrap()));
-            }
+            if let Some(f) = p.hop_field_mut(i) { log.push(format!("hop_field_mut({i})")); mutate_hop(f, rng, log) }
         }
         4 => { log.push("try_reverse".into()); let _ = p.try_reverse(); }
         5 => { log.push("advance_ingress".into()); let _ = p.advance_ingress(rng.chance(1, 2)); }
         6 => { log.push("advance_egress".into()); let _ = p.advance_egress(); }
         7 => {
             log.push("curr_*_mut".into());
-            if let Some(f) = p.curr_info_field_mut() { f.set_segment_id(rng.next() as u16) }
-            if let Some(f) = p.curr_hop_field_mut() { f.set_exp_time(rng.next() as u8) }
+            if let Some(f) = p.curr_info_field_mut() { mutate_info(f, rng, log) }
+            if let Some(f) = p.curr_hop_field_mut() { mutate_hop(f, rng, log) }
+        }
+        8 => {
+            // unsafe in the source today: called only if the source turns them into safe fns
+            let x = *rng.pick(&[0u8, 1, 2, 3, 62, 63]);
+            set!("StandardPathView::set_seg0_len", log, p.set_seg0_len(x));
+            set!("StandardPathView::set_seg1_len", log, p.set_seg1_len(x));
+            set!("StandardPathView::set_seg2_len", log, p.set_seg2_len(x));
         }
         _ => {
             log.push("fields_mut fill".into());
-            for f in p.info_fields_mut() { f.set_timestamp(rng.next() as u32) }
-            for f in p.hop_fields_mut() { f.set_cons_egress(rng.next() as u16) }
+            for f in p.info_fields_mut() { mutate_info(f, rng, log) }
+            for f in p.hop_fields_mut() { mutate_hop(f, rng, log) }
         }
     }
 }
 fn mutate_onehop(p: &mut OneHopPathView, rng: &mut Rng, log: &mut Vec<String>) {
     match rng.below(4) {
-        0 => {
-            log.push("info_field_mut.set_*".into());
-            let f = p.info_field_mut();
-            f.set_flags(InfoFieldFlags::from_bits_retain(rng.next() as u8));
-            f.set_timestamp(*rng.pick(&[0u32, 1, u32::MAX, u32::MAX - 1, 0x7fff_ffff]));
-        }
+        0 => { log.push("info_field_mut".into()); mutate_info(p.info_field_mut(), rng, log) }
         1 => {
-            log.push("mut_hop_fields.set_*".into());
+            log.push("mut_hop_fields".into());
             let [a, b] = p.mut_hop_fields();
-            a.set_exp_time(rng.next() as u8);
-            b.set_cons_ingress(rng.below(3) as u16);
-            b.set_mac(HopFieldMac(rng.bytes(6).try_into().unwrap()));
+            mutate_hop(a, rng, log);
+            mutate_hop(b, rng, log);
+            if rng.chance(1, 2) { b.set_cons_ingress(rng.below(3) as u16) }
         }
         2 => { log.push("try_reverse".into()); let _ = p.try_reverse(); }
-        _ => { log.push("set_second_hop".into()); p.set_second_hop(rng.next() as u16, [7u8; 16], rng.chance(1, 2)) }
+        _ => { log.push("set_second_hop".into()); p.set_second_hop(*rng.pick(&[0u16, 1, 0x1234, 0xffff]), [7u8; 16], rng.chance(1, 2)) }
     }
 }
 fn mutate_header(h: &mut ScionHeaderView, rng: &mut Rng, log: &mut Vec<String>, allow_version: bool) {
-    match rng.below(10) {
-        0 => { let x = rng.next() as u8; log.push(format!("set_traffic_class({x})")); h.set_traffic_class(x) }
-        1 => { let x = rng.next() as u32; log.push(format!("set_flow_id({x})")); h.set_flow_id(x) }
-        2 => { let x = rng.next() as u8; log.push(format!("set_next_header({x})")); h.set_next_header(ProtocolNumber::from(x)) }
-        3 => { log.push("set_src/dst isd/as".into()); h.set_src_isd(Isd(rng.next() as u16)); h.set_src_as(Asn(rng.next())); h.set_dst_isd(Isd(rng.next() as u16)); h.set_dst_as(Asn(rng.next())) }
+    use sciparse::{address::host_addr::WireHostAddrType, dataplane_path::types::PathType};
+    match rng.below(12) {
+        0 => { let x = rng.next() as u8; set!("ScionHeaderView::set_traffic_class", log, h.set_traffic_class(x)) }
+        1 => { let x = rng.next() as u32; set!("ScionHeaderView::set_flow_id", log, h.set_flow_id(x)) }
+        2 => { let x = rng.next() as u8; set!("ScionHeaderView::set_next_header", log, h.set_next_header(ProtocolNumber::from(x))) }
+        3 => {
+            set!("ScionHeaderView::set_src_isd", log, h.set_src_isd(Isd(rng.next() as u16)));
+            set!("ScionHeaderView::set_src_as", log, h.set_src_as(Asn(rng.next())));
+            set!("ScionHeaderView::set_dst_isd", log, h.set_dst_isd(Isd(rng.next() as u16)));
+            set!("ScionHeaderView::set_dst_as", log, h.set_dst_as(Asn(rng.next())));
+        }
         4 if allow_version => { let x = rng.next() as u8; log.push(format!("set_version({x})")); h.set_version(x) }
+        5 => {
+            // unsafe in the source today: called only if the source turns them into safe fns
+            set!("ScionHeaderView::set_payload_len", log, h.set_payload_len(rng.next() as u16));
+            set!("ScionHeaderView::set_header_len", log, h.set_header_len((rng.next() as u16 % 256) * 4));
+            set!("ScionHeaderView::set_path_type", log, h.set_path_type(PathType::from(rng.below(4) as u8)));
+            set!("ScionHeaderView::set_dst_addr_type", log, h.set_dst_addr_type(WireHostAddrType::from(rng.below(16) as u8)));
+            set!("ScionHeaderView::set_src_addr_type", log, h.set_src_addr_type(WireHostAddrType::from(rng.below(16) as u8)));
+        }
         _ => match h.path_mut() {
             ScionDpPathViewRefMut::Standard(p) => mutate_std(p, rng, log),
             ScionDpPathViewRefMut::OneHop(p) => mutate_onehop(p, rng, log),
@@ -495,23 +683,89 @@ fn mutate_header(h: &mut ScionHeaderView, rng: &mut Rng, log: &mut Vec<String>, 
         },
     }
 }
+/// SCMP type bytes a (hypothetically safe) type setter is tried with: every known kind and two unknown ones
+const SCMP_TYPES: [u8; 11] = [1, 2, 4, 5, 6, 128, 129, 130, 131, 0, 200];
 fn mutate_scmp(p: &mut ScmpPayloadView, rng: &mut Rng, log: &mut Vec<String>) {
-    match rng.below(3) {
-        0 => { log.push("set_code/checksum".into()); p.set_code(rng.next() as u8); p.set_checksum(rng.next() as u16) }
+    use sciparse::{identifier::isd_asn::IsdAsn, payload::scmp::types::ScmpMessageType as T};
+    let fill = |s: &mut [u8], rng: &mut Rng| { for b in s.iter_mut() { *b = rng.next() as u8 } };
+    match rng.below(4) {
+        0 => {
+            set!("ScmpPayloadView::set_code", log, p.set_code(rng.next() as u8));
+            set!("ScmpPayloadView::set_checksum", log, p.set_checksum(rng.next() as u16));
+            set!("ScmpPayloadView::set_message_type", log, p.set_message_type(T::from(*rng.pick(&SCMP_TYPES))));
+        }
         _ => {
-            log.push("message_mut().*".into());
-            let fill = |s: &mut [u8], rng: &mut Rng| { for b in s.iter_mut() { *b = rng.next() as u8 } };
+            log.push("message_mut()".into());
+            let ty = *rng.pick(&SCMP_TYPES);
+            let ia = IsdAsn::from_u64(rng.next());
+            macro_rules! common { ($v:literal, $m:expr) => {
+                set!(concat!($v, "::set_code"), log, $m.set_code((rng.next() as u8).into()));
+                set!(concat!($v, "::set_checksum"), log, $m.set_checksum(rng.next() as u16));
+                set!(concat!($v, "::set_message_type"), log, $m.set_message_type(T::from(ty)));
+            } }
             match p.message_mut() {
-                ScmpMessageViewMut::DestinationUnreachable(m) => { m.set_reserved(rng.next() as u32); m.set_checksum(1); fill(m.offending_packet_mut(), rng) }
-                ScmpMessageViewMut::PacketTooBig(m) => { m.set_mtu(rng.next() as u16); m.set_reserved(3); fill(m.offending_packet_mut(), rng) }
-                ScmpMessageViewMut::ParameterProblem(m) => { m.set_pointer(rng.next() as u16); m.set_reserved(3); fill(m.offending_packet_mut(), rng) }
-                ScmpMessageViewMut::ExternalInterfaceDown(m) => { m.set_interface_id(rng.next()); fill(m.offending_packet_mut(), rng) }
-                ScmpMessageViewMut::InternalConnectivityDown(m) => { m.set_ingress_interface_id(rng.next()); m.set_egress_interface_id(rng.next()); fill(m.offending_packet_mut(), rng) }
-                ScmpMessageViewMut::EchoRequest(m) => { m.set_identifier(rng.next() as u16); m.set_sequence_number(rng.next() as u16); fill(m.data_mut(), rng) }
-                ScmpMessageViewMut::EchoReply(m) => { m.set_identifier(rng.next() as u16); m.set_sequence_number(rng.next() as u16); fill(m.data_mut(), rng) }
-                ScmpMessageViewMut::TracerouteRequest(m) => { m.set_identifier(rng.next() as u16); m.set_interface_id(rng.next()) }
-                ScmpMessageViewMut::TracerouteReply(m) => { m.set_identifier(rng.next() as u16); m.set_interface_id(rng.next()) }
-                ScmpMessageViewMut::Unknown(m) => { m.set_code(rng.next() as u8) }
+                ScmpMessageViewMut::DestinationUnreachable(m) => {
+                    set!("ScmpDestinationUnreachableMessageView::set_reserved", log, m.set_reserved(rng.next() as u32));
+                    fill(m.offending_packet_mut(), rng);
+                    common!("ScmpDestinationUnreachableMessageView", m);
+                }
+                ScmpMessageViewMut::PacketTooBig(m) => {
+                    set!("ScmpPacketTooBigMessageView::set_mtu", log, m.set_mtu(rng.next() as u16));
+                    set!("ScmpPacketTooBigMessageView::set_reserved", log, m.set_reserved(rng.next() as u16));
+                    fill(m.offending_packet_mut(), rng);
+                    common!("ScmpPacketTooBigMessageView", m);
+                }
+                ScmpMessageViewMut::ParameterProblem(m) => {
+                    set!("ScmpParameterProblemMessageView::set_pointer", log, m.set_pointer(rng.next() as u16));
+                    set!("ScmpParameterProblemMessageView::set_reserved", log, m.set_reserved(rng.next() as u16));
+                    fill(m.offending_packet_mut(), rng);
+                    common!("ScmpParameterProblemMessageView", m);
+                }
+                ScmpMessageViewMut::ExternalInterfaceDown(m) => {
+                    set!("ScmpExternalInterfaceDownMessageView::set_isd_asn", log, m.set_isd_asn(ia));
+                    set!("ScmpExternalInterfaceDownMessageView::set_interface_id", log, m.set_interface_id(rng.next()));
+                    fill(m.offending_packet_mut(), rng);
+                    common!("ScmpExternalInterfaceDownMessageView", m);
+                }
+                ScmpMessageViewMut::InternalConnectivityDown(m) => {
+                    set!("ScmpInternalConnectivityDownMessageView::set_isd_asn", log, m.set_isd_asn(ia));
+                    set!("ScmpInternalConnectivityDownMessageView::set_ingress_interface_id", log, m.set_ingress_interface_id(rng.next()));
+                    set!("ScmpInternalConnectivityDownMessageView::set_egress_interface_id", log, m.set_egress_interface_id(rng.next()));
+                    fill(m.offending_packet_mut(), rng);
+                    common!("ScmpInternalConnectivityDownMessageView", m);
+                }
+                ScmpMessageViewMut::EchoRequest(m) => {
+                    set!("ScmpEchoRequestMessageView::set_identifier", log, m.set_identifier(rng.next() as u16));
+                    set!("ScmpEchoRequestMessageView::set_sequence_number", log, m.set_sequence_number(rng.next() as u16));
+                    fill(m.data_mut(), rng);
+                    common!("ScmpEchoRequestMessageView", m);
+                }
+                ScmpMessageViewMut::EchoReply(m) => {
+                    set!("ScmpEchoReplyMessageView::set_identifier", log, m.set_identifier(rng.next() as u16));
+                    set!("ScmpEchoReplyMessageView::set_sequence_number", log, m.set_sequence_number(rng.next() as u16));
+                    fill(m.data_mut(), rng);
+                    common!("ScmpEchoReplyMessageView", m);
+                }
+                ScmpMessageViewMut::TracerouteRequest(m) => {
+                    set!("ScmpTracerouteRequestMessageView::set_identifier", log, m.set_identifier(rng.next() as u16));
+                    set!("ScmpTracerouteRequestMessageView::set_sequence_number", log, m.set_sequence_number(rng.next() as u16));
+                    set!("ScmpTracerouteRequestMessageView::set_isd_asn", log, m.set_isd_asn(ia));
+                    set!("ScmpTracerouteRequestMessageView::set_interface_id", log, m.set_interface_id(rng.next()));
+                    common!("ScmpTracerouteRequestMessageView", m);
+                }
+                ScmpMessageViewMut::TracerouteReply(m) => {
+                    set!("ScmpTracerouteReplyMessageView::set_identifier", log, m.set_identifier(rng.next() as u16));
+                    set!("ScmpTracerouteReplyMessageView::set_sequence_number", log, m.set_sequence_number(rng.next() as u16));
+                    set!("ScmpTracerouteReplyMessageView::set_isd_asn", log, m.set_isd_asn(ia));
+                    set!("ScmpTracerouteReplyMessageView::set_interface_id", log, m.set_interface_id(rng.next()));
+                    common!("ScmpTracerouteReplyMessageView", m);
+                }
+                ScmpMessageViewMut::Unknown(m) => {
+                    fill(m.message_specific_data_mut(), rng);
+                    set!("ScmpUnknownMessageView::set_code", log, m.set_code(rng.next() as u8));
+                    set!("ScmpUnknownMessageView::set_checksum", log, m.set_checksum(rng.next() as u16));
+                    set!("ScmpUnknownMessageView::set_message_type", log, m.set_message_type(ty));
+                }
             }
         }
     }
@@ -529,22 +783,26 @@ fn mutate_view(cx: &mut Ctx, kind: &str, v: &[u8], steps: usize) {
     let r = catch(|| {
         for _ in 0..steps {
             match kind {
-                "header" => { let (h, _) = ScionHeaderView::try_from_mut_slice(buf).unwrap(); mutate_header(h, &mut rng, &mut log, false) }
-                "stdpath" => { let (p, _) = StandardPathView::try_from_mut_slice(buf).unwrap(); mutate_std(p, &mut rng, &mut log) }
-                "onehop" => { let (p, _) = OneHopPathView::try_from_mut_slice(buf).unwrap(); mutate_onehop(p, &mut rng, &mut log) }
+                "header" => { let (h, _) = ScionHeaderView::try_from_mut_slice(buf).expect("HARNESS-REPARSE"); mutate_header(h, &mut rng, &mut log, false) }
+                "stdpath" => { let (p, _) = StandardPathView::try_from_mut_slice(buf).expect("HARNESS-REPARSE"); mutate_std(p, &mut rng, &mut log) }
+                "onehop" => { let (p, _) = OneHopPathView::try_from_mut_slice(buf).expect("HARNESS-REPARSE"); mutate_onehop(p, &mut rng, &mut log) }
                 "raw" => {
-                    let (p, _) = ScionRawPacketView::try_from_mut_slice(buf).unwrap();
+                    let (p, _) = ScionRawPacketView::try_from_mut_slice(buf).expect("HARNESS-REPARSE");
                     if rng.chance(1, 3) { log.push("payload_mut fill".into()); for b in p.payload_mut().iter_mut() { *b = rng.next() as u8 } } else { mutate_header(p.header_mut(), &mut rng, &mut log, false) }
                 }
-                "udppkt" => { let (p, _) = ScionUdpPacketView::try_from_mut_slice(buf).unwrap(); mutate_header(p.header_mut(), &mut rng, &mut log, false); let _ = p.udp().dst_port(); }
-                "scmppkt" => { let (p, _) = ScionScmpPacketView::try_from_mut_slice(buf).unwrap(); mutate_header(p.header_mut(), &mut rng, &mut log, false); let _ = p.scmp().code(); }
+                "udppkt" => { let (p, _) = ScionUdpPacketView::try_from_mut_slice(buf).expect("HARNESS-REPARSE"); mutate_header(p.header_mut(), &mut rng, &mut log, false); let _ = p.udp().dst_port(); }
+                "scmppkt" => { let (p, _) = ScionScmpPacketView::try_from_mut_slice(buf).expect("HARNESS-REPARSE"); mutate_header(p.header_mut(), &mut rng, &mut log, false); let _ = p.scmp().code(); }
                 "udp" => {
-                    let (p, _) = UdpDatagramView::try_from_mut_slice(buf).unwrap();
-                    log.push("udp set_ports/checksum/payload".into());
-                    p.set_src_port(rng.next() as u16); p.set_dst_port(rng.next() as u16); p.set_checksum(rng.next() as u16);
+                    let (p, _) = UdpDatagramView::try_from_mut_slice(buf).expect("HARNESS-REPARSE");
+                    set!("UdpDatagramView::set_src_port", log, p.set_src_port(rng.next() as u16));
+                    set!("UdpDatagramView::set_dst_port", log, p.set_dst_port(rng.next() as u16));
+                    set!("UdpDatagramView::set_checksum", log, p.set_checksum(rng.next() as u16));
+                    // exempt in the model (safe in the source, probe 1): only called if it is re-classified
+                    set!("UdpDatagramView::set_length", log, p.set_length(rng.next() as u16));
+                    log.push("payload_mut fill".into());
                     for b in p.payload_mut().iter_mut() { *b = rng.next() as u8 }
                 }
-                "scmp" => { let (p, _) = ScmpPayloadView::try_from_mut_slice(buf).unwrap(); mutate_scmp(p, &mut rng, &mut log) }
+                "scmp" => { let (p, _) = ScmpPayloadView::try_from_mut_slice(buf).expect("HARNESS-REPARSE"); mutate_scmp(p, &mut rng, &mut log) }
                 _ => {}
             }
         }
@@ -552,6 +810,14 @@ fn mutate_view(cx: &mut Ctx, kind: &str, v: &[u8], steps: usize) {
     let _ = &mut size_changing;
     cx.rep.hit(&format!("mutated {kind}"));
     let after_bytes = buf.to_vec();
+    if let Err(m) = &r {
+        if m.contains("HARNESS-REPARSE") {
+            // not a panic of the crate: the bytes written by the previous safe mutators no longer parse as this view
+            let after = impl_size(kind, &after_bytes);
+            cx.rep.spec_fail("C02:mutator-changes-size", &format!("{kind}: size `{before}` became `{after}` after safe mutators (the view no longer re-parses)"), json!({"kind": kind, "bytes": short_hex(v), "after": short_hex(&after_bytes), "ops": log}));
+            return;
+        }
+    }
     if let Err(m) = r {
         cx.rep.spec_fail("C02:panic:mutator", &format!("{kind}: safe mutator sequence panicked: {}", &m[..m.len().min(120)]), json!({"kind": kind, "bytes": short_hex(v), "ops": log}));
         return;
@@ -667,7 +933,7 @@ fn run_c02(cx: &mut Ctx, args: &Args) {
                         let step = if thorough || full2.len() < 80 { 1 } else { 3 };
                         let mut n = 0;
                         while n <= full2.len() {
-                            size_case(cx, "header-truncation", "header", &full2[..n], n == full.len());
+                            size_case(cx, "header-truncation", "header", &full2[..n], n >= full.len());
                             n += step;
                         }
                         size_case(cx, "header-truncation", "header", &full, true);
@@ -770,9 +1036,9 @@ fn run_c02(cx: &mut Ctx, args: &Args) {
             let mut b = rng.bytes(n);
             if n > 0 { b[0] = t }
             size_case(cx, "scmp", "scmp", &b, true);
-            if t < 12 {
+            if t < 20 {
                 let k = format!("scmpmsg:{}", SCMP_MSG_KINDS[(t as usize) % SCMP_MSG_KINDS.len()]);
-                size_case(cx, "scmpmsg", &k, &b, false);
+                size_case(cx, "scmpmsg", &k, &b, true);
             }
         }
     }
@@ -871,6 +1137,44 @@ fn probes_c02(cx: &mut Ctx) {
             raw.payload_mut()[5] = 3;
             let r = catch(|| p.udp().dst_port());
             cx.rep.hit(if r.is_err() { "observation: udp() panics after UNSAFE as_raw_mut misuse (contract documented)" } else { "observation: udp() tolerates as_raw_mut misuse" });
+        }
+    }
+    // 4. (fixed, bc8cd06) ScmpUnknownMessageView::set_message_type was a safe fn: the unknown-message view handed
+    //    out by message_mut() could rewrite the type byte, after which message() hands out a larger typed view
+    //    over the same 8 bytes.  Replayed whenever the source declares that setter safe.
+    {
+        use sciparse::payload::scmp::view::ScmpMessageView;
+        let key = "ScmpUnknownMessageView::set_message_type";
+        let class = SETTERS.get().and_then(|m| m.get(key)).cloned().unwrap_or_default();
+        let arena: &Arena = unsafe { &*(&cx.arena as *const Arena) };
+        let bytes = [200u8, 0, 0, 0, 0, 0, 0, 0];
+        if class == "safe" || class == "exempt" {
+            for ty in [130u8, 131, 5, 6] {
+                let buf = arena.place(&bytes);
+                set_case(format!("probe: ScmpPayloadView c800000000000000 -> message_mut() Unknown.set_message_type({ty}) -> message() accessors"));
+                let r = catch(|| {
+                    let (p, _) = ScmpPayloadView::try_from_mut_slice(buf).unwrap();
+                    if let ScmpMessageViewMut::Unknown(m) = p.message_mut() {
+                        #[allow(unused_unsafe)]
+                        unsafe { m.set_message_type(ty) };
+                    }
+                    match p.message() {
+                        ScmpMessageView::TracerouteRequest(t) => { let _ = (t.isd_asn(), t.interface_id()); }
+                        ScmpMessageView::TracerouteReply(t) => { let _ = (t.isd_asn(), t.interface_id()); }
+                        ScmpMessageView::ExternalInterfaceDown(t) => { let _ = (t.isd_asn(), t.interface_id(), t.offending_packet().len()); }
+                        ScmpMessageView::InternalConnectivityDown(t) => { let _ = (t.egress_interface_id(), t.offending_packet().len()); }
+                        _ => {}
+                    }
+                });
+                let after = impl_size("scmp", &bytes.iter().enumerate().map(|(i, b)| if i == 0 { ty } else { *b }).collect::<Vec<u8>>());
+                if r.is_err() || after != "ok 8" {
+                    cx.rep.spec_fail("C02:oob:scmp-unknown-set_message_type", &format!("safe setter ScmpUnknownMessageView::set_message_type({ty}) on an accepted 8-byte SCMP payload view: message() then hands out a typed view whose accessors read beyond the view ({}); has_required_size of the bytes is now `{after}`", r.err().map(|m| m[..m.len().min(90)].to_string()).unwrap_or("no panic in this build".into())), json!({"bytes": hex(&bytes), "type": ty}));
+                    break;
+                }
+            }
+            cx.rep.hit("probe scmp unknown set_message_type (declared safe in the source)");
+        } else {
+            cx.rep.hit("observation: ScmpUnknownMessageView::set_message_type is an unsafe fn in the source (contract documented)");
         }
     }
     // 3. header set_version is a safe setter; accessors must stay in bounds, sub-views must not panic
@@ -980,12 +1284,26 @@ mod c03 {
     fn vals(v: &[u64]) -> String {
         if v.is_empty() { "-".into() } else { v.iter().map(|x| x.to_string()).collect::<Vec<_>>().join(",") }
     }
+    /// a non-canonical `ProtocolNumber::Other(k)` / `Scmp…Code::Unassigned(k)` with an assigned `k` (which the
+    /// decoder never produces) is printed as 256 + k
+    fn nh_text(nh: ProtocolNumber) -> usize {
+        let b = u8::from(nh);
+        if ProtocolNumber::from(b) != nh { 256 + b as usize } else { b as usize }
+    }
+    fn dc_text(c: sciparse::payload::scmp::types::ScmpDestinationUnreachableCode) -> usize {
+        let b = u8::from(c);
+        if sciparse::payload::scmp::types::ScmpDestinationUnreachableCode::from(b) != c { 256 + b as usize } else { b as usize }
+    }
+    fn pc_text(c: sciparse::payload::scmp::types::ScmpParameterProblemCode) -> usize {
+        let b = u8::from(c);
+        if sciparse::payload::scmp::types::ScmpParameterProblemCode::from(b) != c { 256 + b as usize } else { b as usize }
+    }
     pub fn show_scmp(m: &ScmpMessage, long: bool) -> String {
         let d = |b: &[u8]| if long { hx_or_rep(b) } else { hx(b) };
         match m {
-            ScmpMessage::DestinationUnreachable(x) => format!("scmp:DestinationUnreachable:1:{}:-:{}", u8::from(x.code), d(x.get_offending_packet())),
+            ScmpMessage::DestinationUnreachable(x) => format!("scmp:DestinationUnreachable:1:{}:-:{}", dc_text(x.code), d(x.get_offending_packet())),
             ScmpMessage::PacketTooBig(x) => format!("scmp:PacketTooBig:2:0:{}:{}", vals(&[x.mtu as u64]), d(x.get_offending_packet())),
-            ScmpMessage::ParameterProblem(x) => format!("scmp:ParameterProblem:4:{}:{}:{}", u8::from(x.code), vals(&[x.pointer as u64]), d(x.get_offending_packet())),
+            ScmpMessage::ParameterProblem(x) => format!("scmp:ParameterProblem:4:{}:{}:{}", pc_text(x.code), vals(&[x.pointer as u64]), d(x.get_offending_packet())),
             ScmpMessage::ExternalInterfaceDown(x) => format!("scmp:ExternalInterfaceDown:5:0:{}:{}", vals(&[x.isd_asn.to_u64(), x.interface_id as u64]), d(x.get_offending_packet())),
             ScmpMessage::InternalConnectivityDown(x) => format!("scmp:InternalConnectivityDown:6:0:{}:{}", vals(&[x.isd_asn.to_u64(), x.ingress_interface_id as u64, x.egress_interface_id as u64]), d(x.get_offending_packet())),
             ScmpMessage::EchoRequest(x) => format!("scmp:EchoRequest:128:0:{}:{}", vals(&[x.identifier as u64, x.sequence_number as u64]), d(&x.data)),
@@ -998,7 +1316,7 @@ mod c03 {
     pub fn show_header(h: &ScionPacketHeader) -> String {
         format!(
             "{} {} {} {} {} {} {} {}",
-            h.common.traffic_class, h.common.flow_id, u8::from(h.common.next_header), h.address.dst_ia.to_u64(), h.address.src_ia.to_u64(),
+            h.common.traffic_class, h.common.flow_id, nh_text(h.common.next_header), h.address.dst_ia.to_u64(), h.address.src_ia.to_u64(),
             show_host(&h.address.dst_host_addr), show_host(&h.address.src_host_addr), show_path(&h.path)
         )
     }
@@ -1100,6 +1418,12 @@ mod c03 {
         if ps > 65535 { return Some("payload-size") }
         if hs > 1020 || hs % 4 != 0 { return Some("header-size") }
         if m.header.common.flow_id >= 1 << 20 { return Some("flow-id") }
+        if nh_text(m.header.common.next_header) >= 256 { return Some("next-header-alias") }
+        match &m.pay {
+            Pay::Scmp(ScmpMessage::DestinationUnreachable(x)) if dc_text(x.code) >= 256 => return Some("scmp-code-alias"),
+            Pay::Scmp(ScmpMessage::ParameterProblem(x)) if pc_text(x.code) >= 256 => return Some("scmp-code-alias"),
+            _ => {}
+        }
         for h in [&m.header.address.dst_host_addr, &m.header.address.src_host_addr] {
             if let WireHostAddr::Unknown { id, bytes } = h {
                 if bytes.is_empty() || bytes.len() % 4 != 0 || bytes.len() > 16 { return Some("host-size") }
@@ -1216,9 +1540,17 @@ mod c03 {
         let n = *rng.pick(sizes);
         if n > 4096 { vec![*rng.pick(&[0u8, 0xff, 0x5a]); n] } else { rng.bytes(n) }
     }
-    fn gen_scmp(rng: &mut Rng, sizes: &[usize]) -> ScmpMessage {
+    fn gen_scmp(rng: &mut Rng, sizes: &[usize], adversarial: bool) -> ScmpMessage {
         use sciparse::payload::scmp::types::{ScmpDestinationUnreachableCode as DC, ScmpParameterProblemCode as PC};
         let ia = IsdAsn::from_u64(rng.next());
+        if adversarial && rng.chance(1, 6) {
+            // codes that alias an assigned code: `Unassigned(k)` with an assigned `k`
+            return if rng.chance(1, 2) {
+                ScmpDestinationUnreachable::new(DC::Unassigned(*rng.pick(&[0u8, 3, 6, 7, 200])), gen_data(rng, sizes)).into()
+            } else {
+                ScmpParameterProblem::new(PC::Unassigned(*rng.pick(&[0u8, 1, 16, 33, 64, 2, 200])), rng.next() as u16, gen_data(rng, sizes)).into()
+            };
+        }
         match rng.below(10) {
             0 => ScmpDestinationUnreachable::new(DC::from(rng.next() as u8 % 9), gen_data(rng, sizes)).into(),
             1 => ScmpPacketTooBig::new(rng.next() as u16, gen_data(rng, sizes)).into(),
@@ -1238,7 +1570,12 @@ mod c03 {
             common: CommonHeader {
                 traffic_class: rng.next() as u8,
                 flow_id: if adversarial && rng.chance(1, 4) { *rng.pick(&[1u32 << 20, u32::MAX, (1 << 20) + 5]) } else { rng.next() as u32 & 0xf_ffff },
-                next_header: match kind { 1 => ProtocolNumber::Udp, 2 => ProtocolNumber::Scmp, _ => ProtocolNumber::from(*rng.pick(&[6u8, 17, 202, 0, 255, 43])) },
+                next_header: if adversarial && rng.chance(1, 8) {
+                    // `Other(k)` with an assigned `k` aliases the named protocol number on the wire
+                    ProtocolNumber::Other(*rng.pick(&[6u8, 17, 43, 201, 202, 203, 5, 204]))
+                } else {
+                    match kind { 1 => ProtocolNumber::Udp, 2 => ProtocolNumber::Scmp, _ => ProtocolNumber::from(*rng.pick(&[6u8, 17, 202, 0, 255, 43, 201, 203])) }
+                },
             },
             address: AddressHeader { dst_ia: IsdAsn::from_u64(rng.next()), src_ia: IsdAsn::from_u64(rng.next()), dst_host_addr: gen_host(rng, adversarial), src_host_addr: gen_host(rng, adversarial) },
             path: gen_path(rng, adversarial),
@@ -1246,7 +1583,7 @@ mod c03 {
         let pay = match kind {
             0 => Pay::Raw(gen_data(rng, sizes)),
             1 => Pay::Udp(UdpDatagram::new(rng.next() as u16, rng.next() as u16, gen_data(rng, sizes))),
-            _ => Pay::Scmp(gen_scmp(rng, sizes)),
+            _ => Pay::Scmp(gen_scmp(rng, sizes, adversarial)),
         };
         Model { header, pay }
     }
@@ -1258,23 +1595,29 @@ mod c03 {
         if s.len() > 300 { format!("{}…({} chars)", &s[..300], s.len()) } else { s.to_string() }
     }
 
-    /// expected output of the reference decoder for the bytes of a representable model
+    /// expected output of the reference decoder, built from the *model that was encoded* (never from the bytes
+    /// under test): header fields, UDP ports / length / payload, every SCMP body field in specification order,
+    /// reserved bytes zero.  The two checksum fields (`ucs=`, `scs=`) and, for non-UDP payloads, `ulen=` are not
+    /// part of the comparison (the checksum is verified by the RFC 1071 oracle below).
     fn expected_ref(m: &Model, bytes: &[u8]) -> String {
         let hs = m.header.required_size();
         let ps = bytes.len() - hs;
         let pay = match &m.pay {
             Pay::Raw(b) => format!("raw:{}", hex(b)),
             Pay::Udp(u) => format!("udp:{}:{}:{}", u.src_port, u.dst_port, hex(&u.payload)),
-            Pay::Scmp(_) => format!("scmphdr:{}:{}:{}", bytes[hs], bytes[hs + 1], hex(&bytes[hs + 4..])),
-        };
-        let (ulen, ucs, scs) = match &m.pay {
-            Pay::Udp(_) => (8 + (ps - 8), u16::from_be_bytes([bytes[hs + 6], bytes[hs + 7]]) as usize, u16::from_be_bytes([bytes[hs + 2], bytes[hs + 3]]) as usize),
-            _ => {
-                let g = |i: usize| if hs + i + 1 < bytes.len() { u16::from_be_bytes([bytes[hs + i], bytes[hs + i + 1]]) as usize } else if hs + i < bytes.len() { bytes[hs + i] as usize } else { 0 };
-                (g(4), g(6), g(2))
+            Pay::Scmp(sm) => {
+                // show_scmp = scmp:<Kind>:<type>:<code>:<vals>:<data>
+                let t = show_scmp(sm, false);
+                let f: Vec<&str> = t.splitn(6, ':').collect();
+                format!("scmp:{}:{}:{}:z0:{}", f[2], f[3], f[4], f[5])
             }
         };
-        format!("ok v=0 hl={hs} pl={ps} rsv=0 ulen={ulen} ucs={ucs} scs={scs} {} {pay}", show_header(&m.header))
+        let ulen = match &m.pay { Pay::Udp(u) => 8 + u.payload.len(), _ => 0 };
+        format!("ok v=0 hl={hs} pl={ps} rsv=0 ulen={ulen} ucs=0 scs=0 {} {pay}", show_header(&m.header))
+    }
+    /// the tokens of a reference-decoder line that take part in the comparison
+    fn ref_tokens(line: &str, udp: bool) -> Vec<String> {
+        line.split(' ').filter(|t| !(t.starts_with("ucs=") || t.starts_with("scs=") || (!udp && t.starts_with("ulen=")))).map(|t| t.to_string()).collect()
     }
 
     /// one model: encode on both sides, spec oracle on the implementation's bytes
@@ -1318,7 +1661,19 @@ mod c03 {
         if dm != want && !quote_truncated(m) {
             cx.rep.spec_fail("C03:roundtrip", "decode(encode(m)) differs from m", json!({"model": cut(&text), "decoded": cut(&dm)}));
         }
-        let _ = dmodel;
+        // ... and as values of the Rust types (derived PartialEq): the text above prints numbers, two enum values
+        // with the same number are still different models
+        if let Some(d) = &dmodel {
+            let same = d.header == m.header && match (&d.pay, &m.pay) {
+                (Pay::Raw(a), Pay::Raw(b)) => a == b,
+                (Pay::Udp(a), Pay::Udp(b)) => a == b,
+                (Pay::Scmp(a), Pay::Scmp(b)) => a == b,
+                _ => false,
+            };
+            if !same && !quote_truncated(m) {
+                cx.rep.spec_fail("C03:roundtrip-value", "decode(encode(m)) != m as Rust values (an aliasing enum value was accepted by the encoder)", json!({"model": cut(&text), "decoded": cut(&dm)}));
+            }
+        }
         // the model decoder on the implementation's bytes
         let md = cx.lean.ask(&format!("dec {} {}", kind_of(m), hex(&bytes)));
         if cx.lean.differs(&md, &dm) {
@@ -1328,7 +1683,8 @@ mod c03 {
         if !quote_truncated(m) && bytes.len() <= 70000 {
             let r = cx.lean.ask(&format!("ref {} {}", kind_of(m), hex(&bytes)));
             let want = expected_ref(m, &bytes);
-            if cx.lean.enabled && r != want {
+            let udp = matches!(m.pay, Pay::Udp(_));
+            if cx.lean.enabled && ref_tokens(&r, udp) != ref_tokens(&want, udp) {
                 cx.rep.spec_fail("C03:ref-disagrees", "the reference decoder (written from the header specification) reads the encoded packet differently from the model that was encoded", json!({"model": cut(&text), "ref": cut(&r), "want": cut(&want)}));
             }
             cx.rep.hit("reference decoder compared");
@@ -1514,7 +1870,30 @@ fn probes_c03(cx: &mut Ctx) {
         m.pay = Pay::Scmp(ScmpMessageUnknown::new(t, 3, rng.bytes(12)).into());
         model_case(cx, "probe", &m);
     }
-    cx.rep.hit_n("deterministic probes", 20);
+    // (fixed, 700dda7) enum values that alias another value on the wire: ProtocolNumber::Other(assigned),
+    // ScmpDestinationUnreachableCode::Unassigned(0..=6), ScmpParameterProblemCode::Unassigned(assigned)
+    {
+        use sciparse::payload::{ProtocolNumber, scmp::{model::{ScmpDestinationUnreachable, ScmpParameterProblem}, types::{ScmpDestinationUnreachableCode as DC, ScmpParameterProblemCode as PC}}};
+        for k in [6u8, 17, 43, 201, 202, 203] {
+            let mut m = base(&mut rng);
+            m.header.common.next_header = ProtocolNumber::Other(k);
+            m.pay = Pay::Raw(vec![0, 1, 0, 2, 0, 12, 0, 0, 9, 9, 9, 9]);
+            model_case(cx, "probe", &m);
+        }
+        for k in [0u8, 3, 6] {
+            let mut m = base(&mut rng);
+            m.header.common.next_header = ProtocolNumber::Scmp;
+            m.pay = Pay::Scmp(ScmpDestinationUnreachable::new(DC::Unassigned(k), rng.bytes(16)).into());
+            model_case(cx, "probe", &m);
+        }
+        for k in [0u8, 1, 16, 33, 64] {
+            let mut m = base(&mut rng);
+            m.header.common.next_header = ProtocolNumber::Scmp;
+            m.pay = Pay::Scmp(ScmpParameterProblem::new(PC::Unassigned(k), 7, rng.bytes(16)).into());
+            model_case(cx, "probe", &m);
+        }
+    }
+    cx.rep.hit_n("deterministic probes", 34);
 }
 
 fn run_c03(cx: &mut Ctx, args: &Args) {
@@ -1605,6 +1984,7 @@ fn main() {
     let mut cx = Ctx { lean, rep: Report::new(&args.prop, rule), arena: Arena::new(24), rng: Rng::new(args.seed), exercised: 0 };
     let corpus = read_corpus(&args.corpus);
     cx.rep.hit_n("corpus lines", corpus.len() as u64);
+    if args.prop == "C02" { load_setter_table(&mut cx) }
     if let Some(p) = &args.replay {
         let txt = std::fs::read_to_string(p).expect("replay file");
         for l in txt.lines() { let l = l.trim(); if !l.is_empty() && !l.starts_with('#') { replay_line(&mut cx, l) } }
